@@ -325,3 +325,20 @@ Definition validate (r : repo) (b : blk) : verdict :=
   | V_ok => verify_loop r (b_parent b) [] (b_txs b) (map rc_rev (b_rcs b))
   | v => v
   end.
+
+(* ---- a subscriber of a block stream (api/subscriptions): it holds a stack of blocks, newest first; an obsolete
+   block must be the one on top and is dropped, a regular block must extend the top and is pushed ---- *)
+Fixpoint apply_stream (r : repo) (st : list N) (l : list (N * bool)) : option (list N) :=
+  match l with
+  | [] => Some st
+  | (b, true) :: l' =>
+    match st with
+    | t :: st' => if t =? b then apply_stream r st' l' else None
+    | [] => None
+    end
+  | (b, false) :: l' =>
+    match get_summary r b, st with
+    | Some s, t :: _ => if s_parent s =? t then apply_stream r (b :: st) l' else None
+    | _, _ => None
+    end
+  end.
